@@ -419,6 +419,7 @@ type FuncContract struct {
 	File       string
 	Line       int
 	ResultName []string
+	Universal  []string // parameters the callee may drive arbitrarily (any sequence of method calls): universal client
 }
 
 type GhostStmt struct {
@@ -543,7 +544,27 @@ type Forward struct {
 var keywords = map[string]bool{"func": true, "trusted": true, "requires": true, "ensures": true, "ensures_panic": true,
 	"modifies": true, "may_panic": true, "noreturn": true, "inline": true, "mode": true, "props": true, "loop": true, "invariant": true,
 	"decreases": true, "pred": true, "spec": true, "ghost": true, "field": true, "monitor": true, "guards": true, "inv": true,
-	"objinv": true, "lemma": true, "ufun": true, "axiom": true, "atomic": true, "state": true, "guarantee": true, "induction": true, "forwards": true, "package": true, "pure": true, "results": true, "uses": true, "hint": true}
+	"objinv": true, "lemma": true, "ufun": true, "axiom": true, "universal": true, "atomic": true, "state": true, "guarantee": true, "induction": true, "forwards": true, "package": true, "pure": true, "results": true, "uses": true, "hint": true}
+
+// splitTop splits at commas that are not inside parentheses.
+func splitTop(s string) []string {
+	var out []string
+	depth, start := 0, 0
+	for i, ch := range s {
+		switch ch {
+		case '(':
+			depth++
+		case ')':
+			depth--
+		case ',':
+			if depth == 0 {
+				out = append(out, s[start:i])
+				start = i + 1
+			}
+		}
+	}
+	return append(out, s[start:])
+}
 
 func firstWord(s string) (string, string) {
 	s = strings.TrimSpace(s)
@@ -566,12 +587,14 @@ func parseClause(rest string) (Clause, error) {
 		lab := r[:i]
 		ok := true
 		for _, ch := range []byte(lab) {
-			if !(isIdStart(ch) || ch >= '0' && ch <= '9') {
+			if !(isIdStart(ch) || ch >= '0' && ch <= '9' || ch == '@') {
 				ok = false
 			}
 		}
 		if ok {
-			c.Label = lab
+			parts := strings.Split(lab, "@") // label@C08@C18: the clause serves only the listed properties
+			c.Label = parts[0]
+			c.Props = parts[1:]
 			r = strings.TrimSpace(r[i+1:])
 		}
 	}
@@ -777,10 +800,14 @@ func (cs *Contracts) loadFile(path, repo string) error {
 			} else {
 				return fail(l, fmt.Errorf("modifies outside func/loop"))
 			}
-			for _, m := range strings.Split(l.rest, ",") {
+			for _, m := range splitTop(l.rest) {
 				if m = strings.TrimSpace(m); m != "" {
 					*dst = append(*dst, m)
 				}
+			}
+		case "universal":
+			for _, m := range strings.Split(l.rest, ",") {
+				curF.Universal = append(curF.Universal, strings.TrimSpace(m))
 			}
 		case "may_panic":
 			curF.MayPanic = true
